@@ -9,6 +9,7 @@
 //!          a standard input in the virtual shell
 //!   single `expand_word` (the single-field mode used for assignment values) on words
 //!   text   `expand_text` (here-document bodies) on texts
+//!   heredoc  `cat <<[-]DELIM` here-documents: real parser + `expand_text`, and whole scripts
 //!   words  commands `args WORD...` in a generated environment (variables, IFS,
 //!          positional parameters, nounset), through `expand_words` on the AST the
 //!          real parser produced (api) and as a script in the virtual shell (script)
@@ -1265,6 +1266,304 @@ fn stream_words(w: &mut CasesWriter, rng: &mut Rng, args: &Args) {
 
 
 // ---------------------------------------------------------------------------
+// stream: heredoc — here-documents through the real parser (`<<` / `<<-`, quoted and
+// unquoted delimiters), `expand_text` on the parsed content, and whole `cat <<EOF`
+// scripts in the virtual shell.  The Coq term of the body is built from the GENERATOR's
+// structure (not from the parser's AST), so the here-document lexer rules (only `\$`,
+// `` \` ``, `\\` and backslash-newline are escapes, `"` and `'` are literal, tab stripping,
+// no expansion after a quoted delimiter) are inside the comparison.
+
+#[derive(Clone, Debug)]
+enum HUnit {
+    Lit(char),
+    /// `\c` with c one of `$`, `` ` ``, `\`: an escape
+    Bs(char),
+    /// `\c` with any other c: a literal backslash followed by a literal c
+    BsOther(char),
+    /// backslash-newline: removed
+    LineCont,
+    /// `$name`
+    Raw(&'static str),
+    /// `${name}`, `${#name}`
+    Braced(&'static str, bool),
+    /// `${name OP word}` with a literal word
+    Switch(&'static str, &'static str, &'static str),
+}
+
+fn hparam_coq(name: &str) -> String {
+    match name {
+        "@" => "PAt".into(),
+        "*" => "PStar".into(),
+        "#" => "PNum".into(),
+        "1" | "2" | "3" => format!("(PPos {})", coq::nat(name.parse::<usize>().unwrap())),
+        _ => format!("(PVar {})", coq::s(name)),
+    }
+}
+
+impl HUnit {
+    fn src(&self) -> String {
+        match self {
+            HUnit::Lit(c) => c.to_string(),
+            HUnit::Bs(c) | HUnit::BsOther(c) => format!("\\{c}"),
+            HUnit::LineCont => "\\\n".into(),
+            HUnit::Raw(n) => format!("${n}"),
+            HUnit::Braced(n, false) => format!("${{{n}}}"),
+            HUnit::Braced(n, true) => format!("${{#{n}}}"),
+            HUnit::Switch(n, op, w) => format!("${{{n}{op}{w}}}"),
+        }
+    }
+    /// the text units POSIX (XCU 2.7.4) makes of this piece of an unquoted here-document
+    fn terms(&self) -> Vec<String> {
+        match self {
+            HUnit::Lit(c) => vec![format!("(TLit {})", *c as u32)],
+            HUnit::Bs(c) => vec![format!("(TBs {})", *c as u32)],
+            HUnit::BsOther(c) => vec!["(TLit 92)".into(), format!("(TLit {})", *c as u32)],
+            HUnit::LineCont => vec![],
+            HUnit::Raw(n) | HUnit::Braced(n, false) => vec![format!("(TParam {} MNone)", hparam_coq(n))],
+            HUnit::Braced(n, true) => vec![format!("(TParam {} MLength)", hparam_coq(n))],
+            HUnit::Switch(n, op, w) => {
+                let colon = op.starts_with(':');
+                let a = match op.trim_start_matches(':') {
+                    "+" => "Alter",
+                    "-" => "Default",
+                    "=" => "Assign",
+                    _ => "Error",
+                };
+                let mut word = String::from("WNil");
+                for c in w.chars().rev() {
+                    word = format!("(WCons (WUnq (TLit {})) {})", c as u32, word);
+                }
+                vec![format!("(TParam {} (MSwitch {} {} {}))", hparam_coq(n), a, coq::b(colon), word)]
+            }
+        }
+    }
+}
+
+fn terms_to_text(ts: &[String]) -> String {
+    let mut s = String::from("TNil");
+    for t in ts.iter().rev() {
+        s = format!("(TCons {} {})", t, s);
+    }
+    s
+}
+
+fn gen_hline(r: &mut Rng) -> Vec<HUnit> {
+    let n = r.below(6);
+    let mut v: Vec<HUnit> = vec![];
+    for _ in 0..n {
+        // (a line continuation does not end a parameter name)
+        let after_name = matches!(v.iter().rev().find(|u| !matches!(u, HUnit::LineCont)), Some(HUnit::Raw(n)) if n.chars().all(|c| c.is_alphanumeric()));
+        let u = match r.below(16) {
+            0..=4 => {
+                let c = *r.pick(&['a', 'b', ' ', ' ', ':', '"', '\'', ',', '-', '#', '*', '~', '\t']);
+                HUnit::Lit(if after_name && c.is_alphanumeric() { '-' } else { c })
+            }
+            5 => HUnit::Bs(*r.pick(&['$', '`', '\\'])),
+            6..=7 => HUnit::BsOther(*r.pick(&['"', '"', '\'', 'a', ' ', ':'])),
+            8 => HUnit::LineCont,
+            9..=11 => HUnit::Raw(*r.pick(&["x", "y", "e", "u", "1", "2", "@", "*", "#", "IFS"])),
+            12..=13 => {
+                let n = *r.pick(&["x", "y", "e", "u", "1", "3", "@", "*"]);
+                let len = r.chance(1, 3) && n != "@" && n != "*";
+                HUnit::Braced(n, len)
+            }
+            _ => HUnit::Switch(
+                *r.pick(&["x", "y", "e", "u", "u", "2"]),
+                *r.pick(&["-", ":-", "+", ":+", "=", ":=", "?", ":?"]),
+                *r.pick(&["", "q", "q r:s", ",a"]), // (inside ${...} quotes are quotes again: literal words only)
+            ),
+        };
+        v.push(u);
+    }
+    // a line must not end in a line continuation glued to the delimiter line, nor start
+    // with a tab of its own (the tab prefix is added by the caller)
+    if matches!(v.last(), Some(HUnit::LineCont)) {
+        v.push(HUnit::Lit(','));
+    }
+    if matches!(v.first(), Some(HUnit::Lit('\t'))) {
+        v[0] = HUnit::Lit('a');
+    }
+    v
+}
+
+/// One here-document: (operator + delimiter as written, body source, Coq term of the text
+/// POSIX prescribes).
+fn emit_heredoc(w: &mut CasesWriter, env_spec: &EnvSpec, lines: &[(usize, Vec<HUnit>)], remove_tabs: bool, quoting: usize, script_mode: bool) {
+    let mut body = String::new();
+    let mut terms: Vec<String> = vec![];
+    for (tabs, units) in lines {
+        for _ in 0..*tabs {
+            body.push('\t');
+            if !remove_tabs && quoting == 0 {
+                terms.push("(TLit 9)".into());
+            }
+        }
+        for u in units {
+            body.push_str(&u.src());
+            if quoting == 0 {
+                terms.extend(u.terms());
+            }
+        }
+        body.push('\n');
+        if quoting == 0 {
+            terms.push("(TLit 10)".into());
+        }
+    }
+    if quoting != 0 {
+        // quoted delimiter: every character of every line is literal (XCU 2.7.4), after the
+        // removal of leading tabs for `<<-`
+        for line in body.split_inclusive('\n') {
+            let l = if remove_tabs { line.trim_start_matches('\t') } else { line };
+            if l == "EOF\n" {
+                return; // would end the here-document early
+            }
+            terms.extend(l.chars().map(|c| format!("(TLit {})", c as u32)));
+        }
+    }
+    let term_t = terms_to_text(&terms);
+    let delim = ["EOF", "'EOF'", "\\EOF", "\"EOF\"", "E'O'F"][quoting];
+    let op = if remove_tabs { "<<-" } else { "<<" };
+    let cmd = format!("cat {op}{delim}\n{body}{}EOF\n", if remove_tabs { "\t" } else { "" });
+
+    let out: Result<String, u32> = if script_mode {
+        let o = vsh::run_script(&format!("{}{}", env_spec.script(), cmd));
+        if o.panicked.is_some() || o.deadlock || o.timeout {
+            Err(100)
+        } else if o.status == 0 {
+            Ok(o.stdout.clone())
+        } else if o.stdout.is_empty() {
+            // the error kind is not observable in a script: ask the API for it below
+            Err(0)
+        } else {
+            Ok(o.stdout.clone())
+        }
+    } else {
+        Err(0)
+    };
+    // API: the real parser, then expand_text on the content of the here-document
+    let api: Result<String, u32> = catch_unwind(AssertUnwindSafe(|| {
+        let list: yash_syntax::syntax::List = match cmd.parse() {
+            Ok(l) => l,
+            Err(_) => return Err(101),
+        };
+        let mut found = None;
+        for item in &list.0 {
+            for p in std::iter::once(&item.and_or.first).chain(item.and_or.rest.iter().map(|(_, p)| p)) {
+                for c in &p.commands {
+                    if let yash_syntax::syntax::Command::Simple(sc) = &**c {
+                        for rd in sc.redirs.iter() {
+                            if let yash_syntax::syntax::RedirBody::HereDoc(h) = &rd.body {
+                                found = Some(h.clone());
+                            }
+                        }
+                    }
+                }
+            }
+        }
+        let Some(h) = found else { return Err(102) };
+        let Some(text) = h.content.get() else { return Err(103) };
+        if h.remove_tabs != remove_tabs {
+            return Err(104);
+        }
+        let mut env = make_env(env_spec);
+        match expand_text(&mut env, text).now_or_never().expect("expansion blocked") {
+            Ok((value, _)) => Ok(value),
+            Err(e) => Err(error_kind(&e.cause)),
+        }
+    }))
+    .unwrap_or(Err(100));
+    let r: Result<String, u32> = if script_mode {
+        match (&out, &api) {
+            (Err(0), Err(k)) => Err(*k),  // the script failed: kind as reported by the API
+            (Err(0), Ok(_)) => Err(9),    // the script failed although the API expands the text
+            _ => out.clone(),
+        }
+    } else {
+        api.clone()
+    };
+    let outc = match &r {
+        Ok(v) => format!("(inl {})", coq::s(v)),
+        Err(k) => format!("(inr {})", coq::n(*k as u64)),
+    };
+    let term = format!("(CText {} {} {})", env_spec.coq(), term_t, outc);
+    let json = format!(
+        "{{\"stream\":\"heredoc\",\"mode\":{},\"env\":{},\"script\":{},\"value\":{}}}",
+        json_str(if script_mode { "script" } else { "api" }),
+        env_spec.json(),
+        json_str(&cmd),
+        match &r {
+            Ok(v) => json_str(v),
+            Err(k) => format!("\"error {k}\""),
+        }
+    );
+    w.count(if script_mode { "stream:heredoc:script" } else { "stream:heredoc:api" });
+    w.count(&format!("heredoc:{}{}", op, if quoting == 0 { "unquoted" } else { "quoted" }));
+    if quoting == 0 && (body.contains("\\\"") || body.contains('"')) {
+        w.count("heredoc:unquoted-with-double-quote");
+    }
+    if quoting == 0 && body.contains('$') {
+        let splitting_ifs = env_spec.vars.iter().any(|(n, v)| n == "IFS" && !v.is_empty()) || !env_spec.has_ifs();
+        if splitting_ifs {
+            w.count("heredoc:expansion-under-a-splitting-IFS");
+        }
+    }
+    w.push(&term, &json, &[], Some(format!("heredoc|{}|{}|{}", script_mode, env_spec.json(), cmd)));
+}
+
+fn stream_heredoc(w: &mut CasesWriter, rng: &mut Rng, args: &Args) {
+    use HUnit::*;
+    // ---- corpus ----
+    let base = EnvSpec {
+        vars: vec![
+            ("x".to_string(), " a:b  c ".to_string()),
+            ("y".to_string(), ": ".to_string()),
+            ("e".to_string(), String::new()),
+            ("IFS".to_string(), " :".to_string()),
+        ],
+        positional: vec!["p q".to_string(), ":r".to_string()],
+        nounset: false,
+    };
+    let mut nu = base.clone();
+    nu.nounset = true;
+    let corpus: Vec<Vec<(usize, Vec<HUnit>)>> = vec![
+        vec![],
+        vec![(0, vec![])],
+        vec![(0, vec![Lit('a'), Lit(' '), Raw("x"), Lit(' '), Braced("y", false), Lit('"'), Raw("x"), Lit('"')])],
+        vec![(1, vec![BsOther('"'), Bs('$'), Lit('x'), Bs('`'), Bs('\\'), BsOther('a'), Lit('\''), Raw("x"), Lit('\'')])],
+        vec![(2, vec![Raw("@"), Lit('|'), Raw("*"), Lit('|'), Braced("@", false), Lit('|'), Raw("#")]), (1, vec![Lit('z')])],
+        vec![(0, vec![Lit('a'), LineCont, Lit('b'), Lit('\t'), Raw("e")]), (1, vec![Braced("x", true)])],
+        vec![(0, vec![Switch("u", "-", "q r:s"), Switch("x", ":+", "q,"), Switch("e", ":-", "q")])],
+        vec![(0, vec![Switch("u", "=", "q r:s"), Raw("u")])],
+        vec![(0, vec![Lit('a'), Raw("u")])],
+        vec![(0, vec![Switch("u", "?", "q")])],
+    ];
+    for lines in &corpus {
+        for e in [&base, &nu] {
+            for (rt, q) in [(false, 0), (true, 0), (false, 1), (true, 2), (false, 3), (true, 4)] {
+                emit_heredoc(w, e, lines, rt, q, false);
+                emit_heredoc(w, e, lines, rt, q, true);
+            }
+        }
+    }
+    // ---- random ----
+    let n = args.scale(250, 4000);
+    for k in 0..n {
+        let mut r = rng.fork(0x4E5D + k as u64);
+        let e = random_env(&mut r);
+        let nl = r.below(4);
+        let lines: Vec<(usize, Vec<HUnit>)> =
+            (0..nl).map(|_| (if r.chance(1, 3) { 1 + r.below(2) } else { 0 }, gen_hline(&mut r))).collect();
+        let remove_tabs = r.chance(1, 2);
+        let quoting = if r.chance(1, 4) { 1 + r.below(4) } else { 0 };
+        emit_heredoc(w, &e, &lines, remove_tabs, quoting, false);
+        if k % 3 == 0 {
+            emit_heredoc(w, &e, &lines, remove_tabs, quoting, true);
+        }
+    }
+}
+
+
+// ---------------------------------------------------------------------------
 // stream: read
 
 fn opt_str_coq(o: &Option<String>) -> String {
@@ -1459,6 +1758,8 @@ fn main() {
     stream_words(&mut w, &mut r, &args);
     let mut r = rng.fork(4);
     stream_read(&mut w, &mut r, &args);
+    let mut r = rng.fork(5);
+    stream_heredoc(&mut w, &mut r, &args);
 
     w.finish(
         "ws: the Unicode white-space table; split: attributed strings x IFS values through \
